@@ -344,6 +344,10 @@ class SimReactor(object):
             return None
 
     # ------------------------------------------------------------------ driver API
+    def _current(self):
+        if object.__getattribute__(_proxy, '_sim') is not self:
+            raise HarnessError('stale simulator: a newer Sim was created; yabgp global state now belongs to it')
+
     def pending(self):
         return sorted((c for c in self._calls if c.active()), key=lambda c: (c.time, c.seq))
 
@@ -356,6 +360,7 @@ class SimReactor(object):
         return [c for c in self.pending() if c.time <= t]
 
     def fire(self, call):
+        self._current()
         if not call.active():
             raise HarnessError('firing an inactive call')
         if call.time > self.now:
@@ -377,6 +382,7 @@ class SimReactor(object):
         return n
 
     def settle(self, fire_due=True, order=None):
+        self._current()
         """Run everything that the real reactor would run without time passing: queued thread
         calls, I/O completions and (if fire_due) delayed calls that are due now.
         `order`: optional function(list_of_due_calls) -> call to fire next."""
@@ -398,6 +404,7 @@ class SimReactor(object):
                 return n
 
     def advance_to(self, t, include_equal=True, order=None):
+        self._current()
         """Move the clock to t, firing calls on the way in time order (ties: `order` or FIFO)."""
         if t < self.now:
             raise HarnessError('time cannot go backwards')
@@ -435,6 +442,7 @@ class SimReactor(object):
         return [c for c in self.connectors if c.state in ('connecting', 'connected')]
 
     def accept(self, c):
+        self._current()
         if c.state != 'connecting':
             raise HarnessError('accept on connector in state %s' % c.state)
         c._cancel_timeout()
@@ -455,11 +463,13 @@ class SimReactor(object):
         return proto
 
     def refuse(self, c, exc=None):
+        self._current()
         if c.state != 'connecting':
             raise HarnessError('refuse on connector in state %s' % c.state)
         self._guard('clientConnectionFailed', c._fail, exc or error.ConnectionRefusedError())
 
     def peer_send(self, c, data):
+        self._current()
         """Deliver one TCP segment. Returns True if it was delivered to the protocol."""
         tr = c.transport
         if c.state != 'connected' or tr is None or not tr.connected or tr.disconnecting:
@@ -470,6 +480,7 @@ class SimReactor(object):
         return True
 
     def peer_close(self, c, clean=True):
+        self._current()
         tr = c.transport
         if c.state != 'connected' or tr is None or not tr.connected:
             raise HarnessError('peer_close on a dead connection')
